@@ -441,11 +441,6 @@ theorem blocked_step {c : Conn} (hb : Blocked c) (op : Op) (hu : op.uses = true)
 
 /-! ### rollback() in the blocked state, then the transparent reconnect -/
 
-/-- `_previous_nested` always points to an older handle, and the current savepoint exists -/
-structure PrevWF (c : Conn) : Prop where
-  prev : ∀ h p, (c.txn h).prev = some p → p < h
-  nested : ∀ n, c.nested = some n → n < c.txns.length
-
 theorem deactivate_prev (c : Conn) (h x : Nat) : ((c.deactivate h).txn x).prev = (c.txn x).prev := by
   by_cases e : h = x
   · subst e
